@@ -369,8 +369,8 @@ func zipArchive(files map[string][]byte, order []string) []byte {
 }
 
 // zipArchiveDamaged is zipArchive with the data of the last (or, with the suffix ":first", the first) file entry damaged: "truncated_stream" cuts the deflate
-// stream before its final block, "overstated_size" announces more uncompressed bytes than the stream holds. Both
-// archives open fine; reading the entry ends early.
+// stream before its final block, "overstated_size" announces more uncompressed bytes than the stream holds, "bad_crc"
+// keeps data and sizes and spoils the checksum. The archives open fine; reading the entry fails.
 func zipArchiveDamaged(files map[string][]byte, order []string, damage string) []byte {
 	var buf bytes.Buffer
 	zw := zip.NewWriter(&buf)
@@ -417,6 +417,9 @@ func zipArchiveDamaged(files map[string][]byte, order []string, damage string) [
 			raw = raw[:len(raw)*2/3]
 		case "overstated_size":
 			h.UncompressedSize64 += 1000
+		case "bad_crc":
+			// sizes and stream are right, the checksum in the header is not: the entry reads to its end and then fails
+			h.CRC32 ^= 0x5a5a5a5a
 		}
 		h.CompressedSize64 = uint64(len(raw))
 		w, err := zw.CreateRaw(h)
